@@ -55,6 +55,7 @@ func NewLoadBalancer(targets TargetList) *LoadBalancer {
 		all:     targets,
 	}
 
+	simNote("lb.new", lb)
 	lb.beginHealthChecks()
 	return lb
 }
@@ -74,10 +75,12 @@ func (lb *LoadBalancer) WaitUntilHealthy(timeout time.Duration) error {
 
 	for _, target := range lb.Targets() {
 		go func() {
+			simYield("lb.waitStart", target)
 			if !target.WaitUntilHealthy(timeout) {
 				slog.Info("Target failed to become healthy", "target", target.Target())
 				failed.Store(true)
 			}
+			simYield("lb.waitDone", target)
 			wg.Done()
 		}()
 	}
@@ -120,18 +123,21 @@ func (lb *LoadBalancer) DrainAll(timeout time.Duration) {
 }
 
 func (lb *LoadBalancer) ServeHTTP(w http.ResponseWriter, r *http.Request) {
+	simYield("lb.claim", r)
 	target, req, err := lb.claimTarget(r)
 	if err != nil {
 		SetErrorResponse(w, r, http.StatusServiceUnavailable, nil)
 		return
 	}
 
+	simYield("lb.claimed", req)
 	target.SendRequest(w, req)
 }
 
 // TargetStateConsumer
 
 func (lb *LoadBalancer) TargetStateChanged(target *Target) {
+	simYield("lb.stateChanged", target)
 	lb.updateHealthyTargets()
 }
 
